@@ -30,7 +30,7 @@ import (
 )
 
 type Event struct {
-	K     string   `json:"k"` // http | jstart | jbatch | jend | jabort | expire
+	K     string   `json:"k"` // http | txn | jstart | jbatch | jend | jabort | expire | pause | expire_old
 	Start bool     `json:"start"`
 	ID    int      `json:"id"` // 0 = no sync-id header
 	End   bool     `json:"end"`
@@ -73,6 +73,23 @@ func payload(ents [][3]int) string {
 		sb.WriteString("}")
 	}
 	sb.WriteString("]")
+	return sb.String()
+}
+
+func txnPayload(ents [][3]int) string {
+	var sb strings.Builder
+	sb.WriteString(`{"@context":{"namespaces":{"ex":"http://v/"}},"d":[`)
+	for i, e := range ents {
+		if i > 0 {
+			sb.WriteString(",")
+		}
+		sb.WriteString(fmt.Sprintf(`{"id":"ex:e%d","props":{"ex:p":%d},"refs":{}`, e[0], e[1]))
+		if e[2] != 0 {
+			sb.WriteString(`,"deleted":true`)
+		}
+		sb.WriteString("}")
+	}
+	sb.WriteString("]}")
 	return sb.String()
 }
 
@@ -187,17 +204,92 @@ func runOnce(c Case, dir string) (obs Obs, taint bool) {
 		return out, err
 	}
 
-	// drain all lease timers before leaving (their goroutines reference this store's dataset only in memory)
-	defer func() {
-		ds.StartFullSync() // cancels a pending lease; harmless on the scratch store
-	}()
+	// lease timers still running when the case ends fire within one lease time; their goroutines only touch this
+	// case's in-memory Dataset object (nothing of the code under test is used to clean up)
 
 	var segStart time.Time
 	inSeg := false
+	oldIDs := map[int]bool{} // lease goroutines that were running at the last pause
+	var oldDeadline, youngStart time.Time
+	haveYoung := false
 	lastEnd := time.Now()
 	obs.Outcome = "ok"
 	for _, ev := range c.Events {
 		var st Step
+		if ev.K == "pause" {
+			// time passes, less than a lease: every timer running now is "old"; nothing may fire
+			oldIDs = map[int]bool{}
+			if !countBroken {
+				oldIDs = server.VerifC09LeaseGoroutineIDs()
+			}
+			if len(oldIDs) > 0 {
+				oldDeadline = lastEnd.Add(timeout)
+				time.Sleep(timeout / 2)
+				youngStart = time.Now()
+				haveYoung = true
+			}
+			if err := observe(ds, &st); err != nil {
+				obs.Outcome, obs.Detail = "setup-error", err.Error()
+				return
+			}
+			obs.Steps = append(obs.Steps, st)
+			lastEnd = time.Now()
+			if inSeg && lastEnd.Sub(segStart) > timeout*85/100 {
+				return obs, true
+			}
+			continue
+		}
+		if ev.K == "expire_old" {
+			// the timers that were running at the last pause fire, the younger ones must not
+			if countBroken {
+				obs.Outcome, obs.Detail = "skipped", "lease goroutines not recognisable: cannot tell old timers from young ones"
+				return
+			}
+			anyOld := func() bool {
+				for id := range server.VerifC09LeaseGoroutineIDs() {
+					if oldIDs[id] {
+						return true
+					}
+				}
+				return false
+			}
+			if len(oldIDs) > 0 && !anyOld() {
+				oldIDs = map[int]bool{} // all of them were cancelled meanwhile: nothing to wait for
+			}
+			if len(oldIDs) > 0 {
+				if d := time.Until(oldDeadline.Add(3 * time.Millisecond)); d > 0 {
+					time.Sleep(d)
+				}
+				limit := time.Now().Add(20*timeout + 2*time.Second)
+				for {
+					if !anyOld() {
+						break
+					}
+					if time.Now().After(limit) {
+						obs.Outcome, obs.Detail = "skipped", "old lease goroutines did not finish within the poll bound"
+						return
+					}
+					time.Sleep(200 * time.Microsecond)
+				}
+				runtime.Gosched()
+				oldIDs = map[int]bool{}
+				// whatever timer is alive now was created after the pause
+				if haveYoung {
+					segStart = youngStart
+				}
+				inSeg = len(server.VerifC09LeaseGoroutineIDs()) > 0
+			}
+			if err := observe(ds, &st); err != nil {
+				obs.Outcome, obs.Detail = "setup-error", err.Error()
+				return
+			}
+			obs.Steps = append(obs.Steps, st)
+			lastEnd = time.Now()
+			if inSeg && lastEnd.Sub(segStart) > timeout*85/100 {
+				return obs, true
+			}
+			continue
+		}
 		if ev.K == "expire" {
 			// realise "every outstanding lease timer fires": wait past the deadline of the youngest timer,
 			// then until no lease goroutine is left
@@ -220,6 +312,8 @@ func runOnce(c Case, dir string) (obs Obs, taint bool) {
 			}
 			runtime.Gosched()
 			inSeg = false
+			oldIDs = map[int]bool{}
+			haveYoung = false
 			if err := observe(ds, &st); err != nil {
 				obs.Outcome, obs.Detail = "setup-error", err.Error()
 				return
@@ -253,6 +347,12 @@ func runOnce(c Case, dir string) (obs Obs, taint bool) {
 				if ev.End {
 					req.Header.Set("universal-data-api-full-sync-end", "true")
 				}
+				rec := httptest.NewRecorder()
+				e.ServeHTTP(rec, req)
+				st.Status = statusClass(rec.Code)
+			case "txn":
+				req := httptest.NewRequest(http.MethodPost, "/transactions", strings.NewReader(txnPayload(ev.Ents)))
+				req.Header.Set("Content-Type", "application/json")
 				rec := httptest.NewRecorder()
 				e.ServeHTTP(rec, req)
 				st.Status = statusClass(rec.Code)
@@ -325,7 +425,7 @@ func runOnce(c Case, dir string) (obs Obs, taint bool) {
 		}
 		obs.Steps = append(obs.Steps, st)
 		lastEnd = time.Now()
-		if lastEnd.Sub(segStart) > timeout*7/10 {
+		if lastEnd.Sub(segStart) > timeout*85/100 {
 			return obs, true
 		}
 	}
@@ -346,40 +446,55 @@ func runCase(c Case, dir string) Obs {
 		}
 		c.LeaseMs *= 2 // slower machine than expected: give the segment more room
 	}
-	obs.Outcome, obs.Detail = "skipped", "a segment of the history took longer than 70% of the lease timeout in 5 attempts"
+	obs.Outcome, obs.Detail = "skipped", "a segment of the history took longer than 85% of the lease timeout in 5 attempts"
 	obs.Steps = nil
 	return obs
 }
 
-// selfTest checks that the lease goroutine can be recognised in a goroutine dump.
+// selfTest checks that the lease goroutine can be recognised in a goroutine dump: one shows up when a lease is
+// taken and it is gone again after the lease time (no cancel involved: nothing but the timer itself is relied on).
+// One successful attempt is enough; an attempt can fail for timing reasons only (the process was descheduled for
+// longer than the lease between taking it and looking), so it is repeated with longer leases before giving up.
 func selfTest(dir string) {
+	for attempt := 1; attempt <= 5; attempt++ {
+		if selfTestOnce(fmt.Sprintf("%s-%d", dir, attempt), time.Duration(attempt)*300*time.Millisecond) {
+			countBroken = false
+			return
+		}
+	}
+	countBroken = true
+}
+
+func selfTestOnce(dir string, timeout time.Duration) bool {
 	_ = os.MkdirAll(dir, 0o755)
 	defer os.RemoveAll(dir)
-	cfg := &conf.Config{Logger: zap.NewNop().Sugar(), StoreLocation: dir, FullsyncLeaseTimeout: time.Hour}
+	cfg := &conf.Config{Logger: zap.NewNop().Sugar(), StoreLocation: dir, FullsyncLeaseTimeout: timeout}
 	store := server.NewStore(cfg, &statsd.NoOpClient{})
 	defer store.Close()
 	dsm := server.NewDsManager(cfg, store, server.NoOpBus())
 	ds, err := dsm.CreateDataset("d", nil)
 	if err != nil {
-		countBroken = true
-		return
+		return false
+	}
+	// leftovers of an earlier attempt end by themselves
+	limit := time.Now().Add(20*timeout + 2*time.Second)
+	for server.VerifC09LeaseGoroutines() != 0 && time.Now().Before(limit) {
+		time.Sleep(time.Millisecond)
 	}
 	before := server.VerifC09LeaseGoroutines()
 	_ = ds.StartFullSyncWithLease("x")
-	runtime.Gosched()
 	during := server.VerifC09LeaseGoroutines()
-	_ = ds.StartFullSync() // cancels the lease
+	ids := len(server.VerifC09LeaseGoroutineIDs())
 	ok := false
-	for i := 0; i < 2000; i++ {
+	limit = time.Now().Add(20*timeout + 2*time.Second)
+	for time.Now().Before(limit) {
 		if server.VerifC09LeaseGoroutines() == 0 {
 			ok = true
 			break
 		}
 		time.Sleep(time.Millisecond)
 	}
-	if before != 0 || during != 1 || !ok {
-		countBroken = true
-	}
+	return before == 0 && during == 1 && ids == 1 && ok
 }
 
 func main() {
